@@ -86,6 +86,29 @@ static FWire c11_load(Reader& r, FReader& fr) {
             for (const auto& om : b.interface().oriented_meshes()) { o.push_back(om.orientation()); o.push_back((ll)(&om.mesh()-mbase)); }
         }
     }
+    // Geometry::save as .geom, read back section by section: "Meshes n" + Mesh lines, "Interfaces n" + Interface lines
+    {
+        const std::string sp = d+"/saved.geom";
+        geo.save(sp);
+        std::ifstream is(sp);
+        std::string line; ll nmh=-1,nih=-1; std::vector<ll> ml; std::vector<std::vector<std::pair<ll,ll>>> il;
+        auto mesh_index = [&](const std::string& name) { for (size_t k=0;k<nm;++k) if (geo.meshes()[k].name()==name) return (ll)k; return (ll)-1; };
+        while (std::getline(is,line)) {
+            std::istringstream ls(line); std::string kw; ls >> kw;
+            if (kw=="Meshes") ls >> nmh;
+            else if (kw=="Interfaces") ls >> nih;
+            else if (kw=="Mesh") { std::string name; ls >> name; if (!name.empty() && name.back()==':') name.pop_back(); ml.push_back(mesh_index(name)); }
+            else if (kw=="Interface") {
+                std::string name,tok; ls >> name; std::vector<std::pair<ll,ll>> oms;
+                while (ls >> tok) { ll sgn = (tok[0]=='-') ? -1 : 1; if (tok[0]=='-'||tok[0]=='+') tok = tok.substr(1); oms.push_back({sgn,mesh_index(tok)}); }
+                il.push_back(oms);
+            }
+        }
+        o.push_back(nmh); if (nmh!=(ll)ml.size()) o.push_back(-777);
+        for (ll k : ml) o.push_back(k);
+        o.push_back(nih); if (nih!=(ll)il.size()) o.push_back(-777);
+        for (const auto& oms : il) { o.push_back((ll)oms.size()); for (const auto& om : oms) { o.push_back(om.first); o.push_back(om.second); } }
+    }
     for (size_t i=0;i<nm;++i) for (size_t j=0;j<nm;++j) {
         out.f.push_back(geo.sigma(geo.meshes()[i],geo.meshes()[j]));
         out.f.push_back(geo.sigma_inv(geo.meshes()[i],geo.meshes()[j]));
